@@ -356,12 +356,20 @@ META = {
         "unit finite difference H(theta+1)v - H(theta)v of the real matrix-free __mul__; for phi_k the derivative of "
         "(cos, sin) is the same pair at phi_k + pi/2, i.e. the drive term of the real Hamiltonian at the shifted phase, "
         "and independently the dense matrix Omega_k/2 (-sin phi_k sx_k + cos phi_k sy_k). z3 decides every output entry "
-        "as a polynomial identity on both branches of `phi.is_nonzero()` (the executor forks on it)."
+        "as a polynomial identity on both branches of `phi.is_nonzero()` (the executor forks on it). "
+        "EvolveStateVector.backward is executed with double_krylov and krylov_exp as stubs returning arbitrary symbolic Krylov "
+        "data, for every combination of needs_input_grad flags: every requested gradient is returned and equals "
+        "Re Tr(-i dt dH/dtheta Vs^T dS Vg^*) with the dense partial derivative of H, the operator handed to double_krylov is "
+        "-i dt H and the state gradient is propagated with exp(+i dt H). Finiteness of the gradient through PCHIP1D: the "
+        "interpolant is built from +,-,*,/,sign,abs,comparisons and torch.where, whose reverse-mode gradient is non-finite "
+        "exactly when a division has a zero divisor (also in a branch torch.where discards: 0/0); every divisor met while the "
+        "real code runs on symbolic samples is recorded and z3 decides divisor != 0 for all sample values (flat segments "
+        "included); on the real torch the gradient itself is computed with autograd."
     ),
     "outside": [
         "N > 3 (N > 4 thorough); batch sizes other than 2",
-        "double_krylov and the Frechet-derivative assembly of EvolveStateVector.backward; krylov_exp accuracy",
-        "autograd through PCHIP / torch.where (an AD-semantics question)",
+        "double_krylov itself (that Vs^T dS Vg^* is the Frechet derivative of exp) and krylov_exp accuracy: numerical",
+        "the VALUE of the gradient through PCHIP / torch.where (only its finiteness is decided); knots at 0,1,2,.. (Pulser's ns grid)",
         "the statement 'gradient = finite difference of the emulated result' itself (numerical)",
         "floating-point rounding",
     ],
